@@ -470,6 +470,9 @@ pub struct TwoLevelIterator {
 
     /// The block handle used to get the data block in the [`TwoLevelIterator::data_block`] field.
     data_block_handle: Option<BlockHandle>,
+
+    /// The error that ended the iteration during a `next` or `prev` call, if there was one.
+    iteration_error: Option<RainDBError>,
 }
 
 /// Private methods
@@ -484,6 +487,7 @@ impl TwoLevelIterator {
             index_block_iter,
             maybe_data_block_iter: None,
             data_block_handle: None,
+            iteration_error: None,
         }
     }
 
@@ -643,6 +647,9 @@ impl RainDbIterator for TwoLevelIterator {
                     error: {}",
                     error
                 );
+                self.maybe_data_block_iter = None;
+                self.data_block_handle = None;
+                self.iteration_error = Some(error.into());
                 return None;
             }
         }
@@ -673,6 +680,9 @@ impl RainDbIterator for TwoLevelIterator {
                     error: {}",
                     error
                 );
+                self.maybe_data_block_iter = None;
+                self.data_block_handle = None;
+                self.iteration_error = Some(error.into());
                 return None;
             }
         }
@@ -691,6 +701,10 @@ impl RainDbIterator for TwoLevelIterator {
         }
 
         self.maybe_data_block_iter.as_ref().unwrap().current()
+    }
+
+    fn take_error(&mut self) -> Option<Self::Error> {
+        self.iteration_error.take()
     }
 }
 
